@@ -520,8 +520,12 @@ class Representation(ObjectWithFields):
 
         seg_delta = self.timescale_to_timedelta(timecode)
         fta = timing.firstAvailableTime - timing.leeway
+        # A segment becomes available at its end time and stays available for its
+        # duration plus timeShiftBufferDepth, so its start time can be up to two
+        # segment durations before firstAvailableTime
+        oldest_tc = timedelta_to_timecode(fta, self.timescale) - 2 * self.segment_duration
         if (
-                seg_delta < fta or
+                timecode < oldest_tc or
                 seg_delta > timing.elapsedTime
         ):
             msg = (
